@@ -179,13 +179,20 @@ class BundleFlattener(ElabPass):
         # Flatten it
         flat = self.flatten_bundle_inst(bundle_inst, path=Path([]))
 
+        # Names to steer clear of: everything in the Module, plus its original port names.
+        # Bundle-valued ports leave the namespace as they are flattened, but Instances
+        # of this Module remain connected to them by name until they are flattened too.
+        avoid = dict(module._pre_flattening_io or {})
+        avoid.update(module.namespace)
+
         # Add each flattened Signal. Note flattened Signals are modified in-place.
         for pathstr, sig in flat.signals.items():
             # Rename the signal, prepending the bundle-instance's name
             sig.name = self.flatname(
                 segments=[bundle_inst.name, pathstr.to_name()],
-                avoid=module.namespace,
+                avoid=avoid,
             )
+            avoid[sig.name] = sig
             # And add it to the Module namespace
             module.add(sig)
 
